@@ -9,7 +9,7 @@ Spec layout (all indices are positions in the spec's own lists):
   deps  : [[pred, succ, kind]]            pred < succ (acyclic by construction), kind 0..3 = FS,SS,FF,SF
   order : permutation of range(len(tasks)) = order of workflow.task_list (optional)
   comps : [{space, parent}]
-  teams : [{targets: [task]}]
+  teams : [{targets: [task], notask?: [task]}]   notask = links kept on the team/workplace side only
   workers: [{team, cost, solo, skills: {str(task): v}, fsk: {str(facility): v}, abs: [int], mw: wp|None}]
   wps   : [{cap, targets: [task], inputs: [wp]}]
   facs  : [{wp, cost, solo, skills: {str(task): v}, abs: [int]}]
@@ -217,7 +217,13 @@ def build(spec, task_hashes=None, comp_hashes=None, junk=0):
 
     for i, tm in enumerate(spec.get("teams", [])):
         team = BaseTeam(name="TM" + str(i), ID=tmid(i))
-        team.extend_targeted_task_list([h.tasks[k] for k in tm.get("targets", [])])
+        for k in tm.get("targets", []):
+            if k in tm.get("notask", ()):
+                # one-sided link (what BaseTeam(targeted_task_list=[...]) gives): the team lists the
+                # task, the task does not list the team; the simulator only reads the team side
+                team.targeted_task_list.append(h.tasks[k])
+            else:
+                team.append_targeted_task(h.tasks[k])
         h.teams.append(team)
     for i, w in enumerate(spec.get("workers", [])):
         worker = BaseWorker(
@@ -240,7 +246,11 @@ def build(spec, task_hashes=None, comp_hashes=None, junk=0):
         workplace = BaseWorkplace(
             name="WP" + str(i), ID=wpid(i), max_space_size=wp.get("cap", 1.0)
         )
-        workplace.extend_targeted_task_list([h.tasks[k] for k in wp.get("targets", [])])
+        for k in wp.get("targets", []):
+            if k in wp.get("notask", ()):
+                workplace.targeted_task_list.append(h.tasks[k])
+            else:
+                workplace.append_targeted_task(h.tasks[k])
         h.wps.append(workplace)
     for i, wp in enumerate(spec.get("wps", [])):
         for k in wp.get("inputs", []):
